@@ -21,6 +21,9 @@ Sequence of **Interaction** events (u, v, +/-, t):
 >>> 1 2 - 3
 """
 
+import codecs
+import io
+
 from dynetx.utils import open_file, make_str, compact_timeslot
 from dynetx import DynGraph
 from dynetx import DynDiGraph
@@ -37,6 +40,17 @@ __all__ = ['write_interactions',
            'write_snapshots',
            'parse_snapshots',
            'read_snapshots']
+
+
+def _decoded_lines(path, encoding):
+    """Decode a binary stream as a whole (not line by line, which breaks multi-byte encodings and byte order
+    marks) and yield its lines; the stream is left open for the caller."""
+    text = io.TextIOWrapper(path, encoding=encoding, newline='\n')
+    try:
+        for line in text:
+            yield line
+    finally:
+        text.detach()
 
 
 def generate_interactions(G, delimiter=' '):
@@ -64,9 +78,11 @@ def write_interactions(G, path, delimiter=' ', encoding='utf-8'):
         encoding: str
             Text enconding, default utf-8
         """
+    encoder = codecs.getincrementalencoder(encoding)()
     for line in generate_interactions(G, delimiter):
         line += '\n'
-        path.write(line.encode(encoding))
+        path.write(encoder.encode(line))
+    path.write(encoder.encode('', True))
 
 
 @open_file(0, mode='rb')
@@ -103,7 +119,7 @@ def read_interactions(path, comments="#", directed=False, delimiter=None,
 
     """
     ids = None
-    lines = (line.decode(encoding) for line in path)
+    lines = _decoded_lines(path, encoding)
     if keys:
         lines = list(lines)
         ids = read_ids(lines, comments=comments, delimiter=delimiter, timestamptype=timestamptype, interactions=True)
@@ -200,9 +216,11 @@ def write_snapshots(G, path, delimiter=' ', encoding='utf-8'):
         encoding: str
             Encoding string, default utf-8
         """
+    encoder = codecs.getincrementalencoder(encoding)()
     for line in generate_snapshots(G, delimiter):
         line += '\n'
-        path.write(line.encode(encoding))
+        path.write(encoder.encode(line))
+    path.write(encoder.encode('', True))
 
 
 def parse_snapshots(lines, comments='#', directed=False, delimiter=None, nodetype=None, timestamptype=None, keys=None):
@@ -288,7 +306,7 @@ def read_snapshots(path, comments="#", directed=False, delimiter=None,
         keys: bool
     """
     ids = None
-    lines = (line.decode(encoding) for line in path)
+    lines = _decoded_lines(path, encoding)
     if keys:
         lines = list(lines)
         ids = read_ids(lines, comments=comments, delimiter=delimiter, timestamptype=timestamptype)
